@@ -3,7 +3,7 @@
 From Coq Require Import ZArith NArith List String Bool Permutation.
 From V Require Import Model.Skel Model.Locks Model.ThresholdLocks Model.ThresholdObj Model.LinCheck
      Generated.LockSkel Proofs.LocksProofs Proofs.LocksSimProofs Proofs.C18Proofs
-     Proofs.ThresholdObjProofs Proofs.LinCheckProofs.
+     Proofs.ThresholdObjProofs Proofs.LinCheckProofs Corr.C18Corr Proofs.C18CorrProofs.
 Import ListNotations.
 Open Scope list_scope.
 
@@ -139,6 +139,25 @@ Theorem lin_checker_sound :
     exists l, Permutation h l /\ legal state op result step st l /\ rt_order op result l.
 Proof. exact lin_check_sound. Qed.
 Print Assumptions lin_checker_sound.
+
+(* the instance evaluated on the implementation's histories by every run: acceptance of a
+   recorded history yields a linearization w.r.t. the sequential specification [step] *)
+Theorem harness_history_checker_sound :
+  forall c, hist_ok c = true ->
+    exists l, Permutation (c_hist c) l /\
+              legal (state sdesc N) (op sdesc N) (result sdesc N) (mstep c) init l /\
+              rt_order (op sdesc N) (result sdesc N) l.
+Proof. exact hist_ok_sound. Qed.
+Print Assumptions harness_history_checker_sound.
+
+(* the checker does reject: T0 adds share 0 and responds (stamp 2) before T1 asks HasShare 0
+   (stamps 3..4) and is told false - not linearizable; with overlapping stamps it is *)
+Example C18_history_checker_rejects_and_accepts :
+  let add := mkEv 0%N (OpTrustedAdd 0%Z (mkS 0 0 0 48)) (RBool false ENone : result sdesc N) in
+  let has := mkEv 1%N (OpHasShare 0%Z) (RBool false ENone : result sdesc N) in
+  let c h := mkCase 3 1 (mkS 0 0 0 48) [] h false in
+  hist_ok (c [add 1%N 2%N; has 3%N 4%N]) = false /\ hist_ok (c [add 1%N 4%N; has 2%N 3%N]) = true.
+Proof. vm_compute. auto. Qed.
 
 (* ---- non-vacuity ---- *)
 (* the path semantics produces the expected complete trace of TrustedAdd (no early return) *)
